@@ -17,7 +17,7 @@ func init() {
 			"log-partition counter realigned at switch. NOT decided: equality of recovered contents with pre-crash contents, fsync semantics of the VFS, interleavings of two live log generations.",
 		Assumptions: commonAssumptions,
 		Technique:   "static analysis: must-precede / success-edge cuts on go/cfg, must-hold lockset dataflow, who-may-call tables over the type-resolved call index",
-		Rules:       "C01.R1 R2 R2b R3 R3b R4 R5 R6 R7 R8 R9 R10 T1",
+		Rules:       "C01.R1 R2 R2b R3 R3b R4 R5 R6 R7 R8 R9 R10 R11 T1",
 	}
 }
 
@@ -453,3 +453,60 @@ func isResetOf(f *an.Fn, n ast.Node, fld types.Object) bool {
 	return false
 }
 
+
+func init() {
+	old := All["C01"].Run
+	All["C01"].Run = func(c *an.Ctx) {
+		old(c)
+		c01loadContext(c)
+	}
+}
+
+// c01loadContext: after a restart the next file sequence number must be above
+// the sequence of EVERY data file found on disk (ordered and out-of-order):
+// the flush that follows the log replay names its output by that counter and
+// the commit rename silently replaces an existing file of the same name.
+func c01loadContext(c *an.Ctx) {
+	const I = "engine/immutable"
+	r := c.Rule("C01.R11", "K-ORDER", I+":(*fileLoader).addTSSPFile — every file that is added to the tables at open enters the load context (max file sequence, max time), whatever its kind")
+	f := fn(r, I+":fileLoader.addTSSPFile")
+	if f == nil {
+		return
+	}
+	upd := f.Find(call(r, I+":fileLoadContext.update"))
+	fail := f.Find(call(r, I+":fileLoadContext.setError"))
+	r.AddSites(upd.Len())
+	if r.Failed() {
+		return
+	}
+	if upd.Len() == 0 {
+		r.Fail(f.Name+": no update", c.P.Pos(f.Body.Pos()), "the load context is never updated with the loaded file")
+		return
+	}
+	cut := upd.Vs()
+	for v := range fail.Vs() {
+		cut[v] = true
+	}
+	if p := f.FPath([]int{f.G.Entry}, f.G.Exit, cut, nil); p != nil {
+		r.Fail(f.Name+": file added without entering the load context", c.P.Pos(f.Body.Pos()), "a file can be added to the tables without fileLoadContext.update (path %s): the sequence counter restored at open can then be below the sequence of an existing file, and the first flush after the replay overwrites that file", f.DescribePath(p))
+	}
+	// update takes both the sequence and the time from the file
+	if g := fn(r, I+":fileLoadContext.update"); g != nil {
+		for _, fld := range []string{"maxSeq", "maxTime"} {
+			_ = fld
+		}
+		seqRead := 0
+		ast.Inspect(g.Body, func(n ast.Node) bool {
+			if ce, ok := n.(*ast.CallExpr); ok {
+				if sel, ok := ce.Fun.(*ast.SelectorExpr); ok && (sel.Sel.Name == "FileNameMerge" || sel.Sel.Name == "FileName" || sel.Sel.Name == "LevelAndSequence") {
+					seqRead++
+				}
+			}
+			return true
+		})
+		r.AddSites(seqRead)
+		if seqRead == 0 {
+			r.Fail(g.Name+": sequence", c.P.Pos(g.Body.Pos()), "fileLoadContext.update no longer reads the file's sequence")
+		}
+	}
+}
